@@ -30,7 +30,7 @@ RULE = ('failure sets enumerated: every subset of failing positions for streams 
         'failing operator kind (apply, assign, filter, sink) x its neighbours in the chain x ignore_error on/off x error kind '
         '(ValueError, TypeError skippable; KeyError not); failing data sources (every subset, source skipping on/off, generator '
         'sources); batched apply / assign with failing batches; random C08 chains with one fail_on operator; num_threads=2 '
-        '(multisets); resumable failing SOURCES that do not skip by themselves (SequenceDataSource: shardable; a user iterator '
+        '(multisets); fn-less select / assign / apply routing container VALUES (tuples of length 0/1/2/3, nested, lists, None, dicts) next to a failing function or a failing read, both skipping modes (arm value-shape, 16 shape labels x 5 forms enforced); resumable failing SOURCES that do not skip by themselves (SequenceDataSource: shardable; a user iterator '
         'class: one un-sharded source behind the _ThreadSafeIterator wrapper) x every non-empty failure set x num_threads 0/1/2 '
         '(num_threads=1: compared in order), first operator of every kind (assign / filter / sink first: the class of the '
         'repaired F-C12-passed-on); skippable routing errors passed on between operators (every subset of records whose '
@@ -232,6 +232,38 @@ def aligned_assign_cases(ctx):
               yield c08.mk_case([spec], bad, ignore=ignore, tag='misaligned-assign')
 
 
+def value_shape_cases(ctx):
+  """SC08b: error skipping next to operators that only ROUTE container values (tuples of length 0 / 1 / 2 / 3, nested,
+  lists, None, dicts: harness/lib_pipegen.py `vs_value`): a failing function (on the int field 'k') or a failing read of
+  the source in front of / behind a select, an assign without fn, an apply without fn; every surviving record must still
+  carry, under the output key, exactly the value it had under the input key ("still aligned with its own inputs")."""
+  fail_fn = lambda s, err: {'f': 'fail_on', 's': list(s), 'kind': err}
+  i = 0
+  for shape in G.VS_SHAPES:
+    for s in [(0,), (1,), (0, 2), (1, 2)]:
+      for ignore in (True, False):
+        i += 1
+        err = 'ValueError' if i % 4 else ('TypeError' if i % 8 else 'KeyError')
+        recs3 = G.vs_records(shape, 3)
+        guard = {'op': 'assign', 'fn': fail_fn(s, err), 'in': {'one': N('k')}, 'keys': {'one': N('f')}}
+        gfilter = {'op': 'filter', 'fn': fail_fn([x + 1 for x in s], err), 'in': {'one': N('k')}}     # keeps k != 0
+        forms = [
+            [guard, {'op': 'select', 'in': {'one': N('a')}, 'out': {'one': N('x')}}],
+            [guard, {'op': 'select', 'in': {'many': [N('a'), N('b')]}}],
+            [{'op': 'assign', 'fn': None, 'in': {'one': N('a')}, 'keys': {'one': N('y')}}, guard],
+            [gfilter, {'op': 'apply', 'fn': None, 'in': {'many': [N('a'), N('k')]}, 'out': {'many': [N('x'), N('k')]}}],
+            [{'op': 'assign', 'fn': None, 'in': {'many': [N('a'), N('b')]}, 'keys': {'one': N('y')}},
+             {'op': 'sink', 'fn': fail_fn(s, err), 'in': {'one': N('k')}, 'is_sink': True},
+             {'op': 'select', 'in': {'many': [N('y'), N('c')]}, 'out': {'many': [N('p'), N('q')]}}],
+        ]
+        yield c08.mk_case(copy.deepcopy(forms[i % len(forms)]), recs3, ignore=ignore, tag='value-shape:op')
+        yield c08.mk_case(copy.deepcopy(forms[(i + 2) % len(forms)]), recs3, ignore=ignore, tag='value-shape:op')
+        # a failing read of the source (the source skips when the pipeline does / does not skip by itself)
+        sel = [{'op': 'select', 'in': {'one': N('a')}}, {'op': 'assign', 'fn': None, 'in': {'one': N('a')}, 'keys': {'one': N('y')}}][i % 2]
+        yield c08.mk_case([copy.deepcopy(sel)], recs3, ignore=ignore, kind='seq', fail=[(j, err) for j in s],
+                          src_ignore=ignore and bool(i % 3), tag='value-shape:source')
+
+
 def gen_cases(ctx):
   rng, quick = ctx.rng, ctx.quick
 
@@ -247,6 +279,10 @@ def gen_cases(ctx):
           ctx.count('error_kind', sp['fn']['kind'])
       if c.get('threads'):
         ctx.count('threads', c['threads'])
+      if c.get('tag', '').startswith('value-shape'):
+        for sp in c['specs']:
+          if sp['op'] == 'select' or (sp['op'] in ('apply', 'assign') and sp.get('fn') is None):
+            ctx.count('value_shape', f"{c['tag']}:{sp['op']}-fn:{G.classify_value(c['src']['items'][0]['d']['a'])}")
       yield c
 
   yield from counted(ctx.corpus(), 'corpus')
@@ -256,6 +292,7 @@ def gen_cases(ctx):
   yield from counted(threaded_source_cases(ctx), 'tsource')
   yield from counted(passed_on_cases(ctx), 'passed-on')
   yield from counted(aligned_assign_cases(ctx), 'aligned-assign')
+  yield from counted(value_shape_cases(ctx), 'value-shape')
 
   def rand(n):
     for _ in range(n):
@@ -292,9 +329,14 @@ def extra(ctx):
           'random', 'threads', 'source-noskip:assign', 'source-noskip:filter', 'source-noskip:sink', 'passed-on:assign',
           'passed-on:filter', 'passed-on:sink', 'aligned-assign', 'aligned-assign:failing-call'] + [f'tsource:{k}:t{t}' for k in ('seq', 'iter') for t in (0, 1, 2)]
   missing = [c for c in need if c not in ctx.hist.get('class', {})]
+  need_vs = [f'value-shape:{where}:{op}-fn:{lab}' for lab in G.VS_LABELS
+             for where, op in (('op', 'select'), ('op', 'assign'), ('op', 'apply'), ('source', 'select'), ('source', 'assign'))]
+  missing += [c for c in need_vs if c not in ctx.hist.get('value_shape', {})]
   if missing:
     raise InfraError(f'generator missed promised classes: {missing}')
   c08.export_stats(ctx)
+  if c08.verdict_pending():
+    return          # a verdict is being reported: the counters of the comparison stages are not enforced (see c08.verdict_pending)
   inside = c08.STATS.get('assign_batched_aligned_theorem', {}).get('aligned: side-conditions hold', 0)
   if inside < 100:
     raise InfraError(f'only {inside} generated cases were inside the domain of C08_assign_batched_aligned_partial')
@@ -351,7 +393,11 @@ def compare_any_source(impl, model):
 
 def compare(impl, model):
   d = c08.compare(impl, model)
-  return d if d is not None else compare_any_source(impl, model)
+  if d is None:
+    d = compare_any_source(impl, model)
+    if d is not None:
+      c08._stat('verdict', 'disagreement')
+  return d
 
 
 def run_impl(case):
@@ -384,6 +430,14 @@ def dec_a(x):
 
 
 def oracle(case, obs):
+  what = _oracle(case, obs)
+  if what is not None and isinstance(obs, dict):
+    # c08.oracle marked the observation with C08's finding classes; C12 has its own (F5)
+    obs['oracle_new_failure'] = c08.mark_new_failure(case, what, finding)
+  return what
+
+
+def _oracle(case, obs):
   what = c08.oracle(case, obs)
   if what is not None:
     ref = obs.get('pyref') or {}
